@@ -46,6 +46,61 @@ def mask_consts(l):
     return frac_mask, int_mask
 
 
+def _num_view(name):
+    """(signed, width, frac, is_fixed) of a fixed alias or primitive integer name, None for floats"""
+    m = re.match(r"^([IU])(\d+)F(\d+)$", name)
+    if m:
+        return (m.group(1) == "I", int(m.group(2)) + int(m.group(3)), int(m.group(3)), True)
+    m = re.match(r"^([iu])(\d+)$", name)
+    if m:
+        return (m.group(1) == "i", int(m.group(2)), 0, False)
+    return None
+
+
+def _halves(what, item, ps, ret, bits, dummy, a, b):
+    """the same obligation split at the sign of the source: each half is the pair guarded by an early return of
+    a fixed dummy on the other half, so both halves together decide the pair for every source value.  Under the
+    guard LLVM folds the library's count of redundant sign bits into a range test, which the unsplit pair keeps
+    on two paths."""
+    out = []
+    for tag, g in (("nonneg", "%s < 0" % bits), ("neg", "%s >= 0" % bits)):
+        pre = "if %s { return %s; } " % (g, dummy)
+        out.append(Pair("E-conv", "%s_%s" % (what, tag), item, ps, ret, "{ %s%s }" % (pre, a), "{ %s%s }" % (pre, b)))
+    return out
+
+
+def fits_expr(src_signed, bits, sh, dst_signed, dw):
+    """Rust boolean: the exact value `bits * 2^sh`, rounded toward minus infinity, lies in the range of a
+    `dw`-bit destination.  `bits` is an expression of a primitive integer type (at most 128 bits)."""
+    big = "i128" if src_signed else "u128"
+    if sh <= 0:
+        w = "((%s as %s) >> %d)" % (bits, big, min(-sh, 127))
+        if -sh >= 128:
+            w = "(%s >> 1)" % w
+        k = dw - 1 if dst_signed else dw              # value bits of the destination
+        if src_signed:
+            lo = ("-(1i128 << %d)" % k if k < 127 else "i128::MIN") if dst_signed else "0i128"
+            hi = "((1i128 << %d) - 1)" % k if k < 127 else "i128::MAX"
+        else:
+            lo = "0u128"
+            hi = "((1u128 << %d) - 1)" % k if k < 128 else "u128::MAX"
+        return "{ let w = %s; %s <= w && w <= %s }" % (w, lo, hi)
+    k = (dw - 1 if dst_signed else dw) - sh           # value bits left for the source's bits
+    b = "(%s as %s)" % (bits, big)
+    if k <= 0:
+        # only 0 fits -- and -1 * 2^sh = the minimum when exactly the sign bit is left
+        if dst_signed and src_signed and k == 0:
+            return "{ let w = %s; -1i128 <= w && w <= 0i128 }" % b
+        return "(%s == 0)" % b
+    if src_signed:
+        lo = ("-(1i128 << %d)" % k if k < 127 else "i128::MIN") if dst_signed else "0i128"
+        hi = "((1i128 << %d) - 1)" % k if k < 127 else "i128::MAX"
+    else:
+        lo = "0u128"
+        hi = "((1u128 << %d) - 1)" % k if k < 128 else "u128::MAX"
+    return "{ let w = %s; %s <= w && w <= %s }" % (b, lo, hi)
+
+
 class Specs:
     def __init__(self, api):
         self.api = api
@@ -366,6 +421,10 @@ class Specs:
             even_v = "if fr & %s == 0 { i } else if fr == %s && (i & %s) == 0 { i } else { %s }" % (half, half, unit, up)
             out.append(Pair("E-mask", "wrapping_round_ties_to_even", L, ps, L, "a0.wrapping_round_ties_to_even()",
                             "{ %s %s(%s) }" % (let, fb, even_v)))
+        else:
+            # no fraction bit: every value is an integer, both roundings are the identity
+            out.append(Pair("E-mask", "wrapping_round", L, ps, L, "a0.wrapping_round()", "a0"))
+            out.append(Pair("E-mask", "wrapping_round_ties_to_even", L, ps, L, "a0.wrapping_round_ties_to_even()", "a0"))
         # overflow flags: the same case analysis on (value, overflow) pairs.  FLOOR is (floor, false) except that
         # without integer bits the floor of a negative value (-1) is not representable; ADD is floor + 1 computed
         # exactly: the primitive's overflowing_add when the unit 2^f is representable, hand-derived for 0 and 1
@@ -402,6 +461,10 @@ class Specs:
                     half, FLOOR, half, unit, FLOOR, ADD)
             out.append(Pair("E-mask", "overflowing_round_ties_to_even", L, ps, rt,
                             "a0.overflowing_round_ties_to_even()", vo(ec)))
+        else:
+            out.append(Pair("E-mask", "overflowing_round", L, ps, rt, "a0.overflowing_round()", "(a0, false)"))
+            out.append(Pair("E-mask", "overflowing_round_ties_to_even", L, ps, rt,
+                            "a0.overflowing_round_ties_to_even()", "(a0, false)"))
         return out
 
     # ------------------------------------------------------------------ E-rem
@@ -542,6 +605,48 @@ class Specs:
                         "<%s as core::cmp::PartialOrd<%s>>::gt(a1, a0)" % (rt, lt)))
         out.append(Pair("E-cmpx", "partial_cmp_vs_mirrored", item, ps, "Option<%s>" % O,
                         pc, "<%s as core::cmp::PartialOrd<%s>>::partial_cmp(a1, a0).map(%s::reverse)" % (rt, lt, O)))
+        # exact ordering by definition: both bit patterns aligned to the larger fraction-bit count in a common
+        # 128-bit integer (only where both aligned operands fit)
+        va, vb = _num_view(lt), _num_view(rt)
+        if va and vb:
+            F = max(va[2], vb[2])
+            na, nb = va[1] + F - va[2], vb[1] + F - vb[2]
+            if not va[0] and not vb[0] and na <= 128 and nb <= 128:
+                big = "u128"
+            elif (na <= (128 if va[0] else 127)) and (nb <= (128 if vb[0] else 127)):
+                big = "i128"
+            else:
+                big = None
+            if big:
+                def al(arg, v):
+                    bits = "(*%s).to_bits()" % arg if v[3] else "(*%s)" % arg
+                    return "((%s as %s) << %d)" % (bits, big, F - v[2]) if F - v[2] else "(%s as %s)" % (bits, big)
+                x, y = al("a0", va), al("a1", vb)
+                for m, op in (("lt", "<"), ("le", "<="), ("gt", ">"), ("ge", ">=")):
+                    out.append(Pair("E-cmpx", m + "_exact", item, ps, "bool",
+                                    "<%s as core::cmp::PartialOrd<%s>>::%s(a0, a1)" % (lt, rt, m), "%s %s %s" % (x, op, y)))
+                out.append(Pair("E-cmpx", "eq_exact", item, ps, "bool",
+                                "<%s as core::cmp::PartialEq<%s>>::eq(a0, a1)" % (lt, rt), "%s == %s" % (x, y)))
+                out.append(Pair("E-cmpx", "partial_cmp_exact", item, ps, "Option<%s>" % O, pc,
+                                "Some(core::cmp::Ord::cmp(&%s, &%s))" % (x, y)))
+                # the same obligations split by the operands' signs (each part guarded by an early return of a
+                # dummy outside it; the parts together cover every operand pair): inside one sign quadrant LLVM
+                # folds the library's sign and overflow short-circuits
+                ba = "(*a0).to_bits()" if va[3] else "(*a0)"
+                bb = "(*a1).to_bits()" if vb[3] else "(*a1)"
+                sides_a = [("an", "%s >= 0" % ba), ("ap", "%s < 0" % ba)] if va[0] else [("a", None)]
+                sides_b = [("bn", "%s >= 0" % bb), ("bp", "%s < 0" % bb)] if vb[0] else [("b", None)]
+                if va[0] or vb[0]:
+                    base = list(out[-6:])
+                    for ta, ga in sides_a:
+                        for tb, gb in sides_b:
+                            g = " || ".join(x_ for x_ in (ga, gb) if x_)
+                            for bp in base:
+                                dummy = "false" if bp.ret == "bool" else "None"
+                                pre = "if %s { return %s; } " % (g, dummy)
+                                nm = bp.cls.split("|", 1)[1]
+                                out.append(Pair("E-cmpx", "%s_%s%s" % (nm, ta, tb), item, ps, bp.ret,
+                                                "{ %s%s }" % (pre, bp.a), "{ %s%s }" % (pre, bp.b)))
         return out
 
     # ------------------------------------------------------------------ E-conv
@@ -567,6 +672,31 @@ class Specs:
         out.append(Pair("E-conv", "From", item, ps, D, "<%s as core::convert::From<%s>>::from(a0)" % (D, S), spec))
         out.append(Pair("E-conv", "LossyFrom", item, ps, D,
                         "<%s as substrate_fixed::traits::LossyFrom<%s>>::lossy_from(a0)" % (D, S), spec))
+        # the overflow flag, by definition: floor(x * 2^fd) = bits * 2^sh must lie in the destination's range
+        fits = fits_expr(src.signed, "a0.to_bits()", sh, dst.signed, dst.width)
+        rt = "(%s, bool)" % D
+        out.append(Pair("E-conv", "overflowing_to_num", item, ps, rt, "a0.overflowing_to_num::<%s>()" % D,
+                        "(%s, !%s)" % (spec, fits)))
+        if src.signed:
+            out += _halves("overflowing_to_num", item, ps, rt, "a0.to_bits()", "(<%s>::from_bits(0), false)" % D,
+                           "a0.overflowing_to_num::<%s>()" % D, "(%s, !%s)" % (spec, fits))
+        out += self._conv_policies(item, ps, D, "a0.%s_to_num::<" + D + ">()", src.signed, "a0.to_bits()",
+                                   "<%s>::min_value()" % D, "<%s>::max_value()" % D, "to_num")
+        return out
+
+    def _conv_policies(self, item, ps, D, call, src_signed, bits, dmin, dmax, what):
+        """checked / saturating forms against the overflowing form: None exactly on overflow; the bound on the
+        value's side (0 lies in every range, so a value out of range is below it iff it is negative)"""
+        out = []
+        o = call % "overflowing"
+        out.append(Pair("E-conv", "checked_" + what, item, ps, "Option<%s>" % D, call % "checked",
+                        "{ let (v, o) = %s; if o { None } else { Some(v) } }" % o))
+        if src_signed:
+            side = "if %s < 0 { %s } else { %s }" % (bits, dmin, dmax)
+        else:
+            side = dmax
+        out.append(Pair("E-conv", "saturating_" + what, item, ps, D, call % "saturating",
+                        "{ let (v, o) = %s; if !o { v } else { %s } }" % (o, side)))
         return out
 
     def conv_int(self, lay, ity):
@@ -591,6 +721,30 @@ class Specs:
                         "<%s>::wrapping_from_num(a0)" % L, spec2))
         out.append(Pair("E-conv", "From_int", "%s->%s" % (ity, L), "a0: %s" % ity, L,
                         "<%s as core::convert::From<%s>>::from(a0)" % (L, ity), spec2))
+        # overflow flags by definition (an integer is a fixed-point number without fraction bits)
+        isg, iw = ity.startswith("i"), int(ity[1:])
+        item = "%s->%s" % (L, ity)
+        ps = "a0: %s" % L
+        out.append(Pair("E-conv", "overflowing_to_num_int", item, ps, "(%s, bool)" % ity,
+                        "a0.overflowing_to_num::<%s>()" % ity,
+                        "(%s, !%s)" % (spec, fits_expr(lay.signed, "a0.to_bits()", -f, isg, iw))))
+        if lay.signed:
+            out += _halves("overflowing_to_num_int", item, ps, "(%s, bool)" % ity, "a0.to_bits()", "(0, false)",
+                           "a0.overflowing_to_num::<%s>()" % ity,
+                           "(%s, !%s)" % (spec, fits_expr(lay.signed, "a0.to_bits()", -f, isg, iw)))
+        out += self._conv_policies(item, ps, ity, "a0.%s_to_num::<" + ity + ">()", lay.signed, "a0.to_bits()",
+                                   "%s::MIN" % ity, "%s::MAX" % ity, "to_num_int")
+        item = "%s->%s" % (ity, L)
+        ps = "a0: %s" % ity
+        out.append(Pair("E-conv", "overflowing_from_num_int", item, ps, "(%s, bool)" % L,
+                        "<%s>::overflowing_from_num(a0)" % L,
+                        "(%s, !%s)" % (spec2, fits_expr(isg, "a0", f, lay.signed, lay.width))))
+        if isg:
+            out += _halves("overflowing_from_num_int", item, ps, "(%s, bool)" % L, "a0", "(<%s>::from_bits(0), false)" % L,
+                           "<%s>::overflowing_from_num(a0)" % L,
+                           "(%s, !%s)" % (spec2, fits_expr(isg, "a0", f, lay.signed, lay.width)))
+        out += self._conv_policies(item, ps, L, "<" + L + ">::%s_from_num(a0)", isg, "a0",
+                                   "<%s>::min_value()" % L, "<%s>::max_value()" % L, "from_num_int")
         return out
 
     # ------------------------------------------------------------------ E-del
